@@ -1,8 +1,8 @@
 package rules
 
 import (
-	"go/types"
 	"go/token"
+	"go/types"
 	"strings"
 
 	"golang.org/x/tools/go/ssa"
@@ -48,7 +48,8 @@ func isHistWrite(c *ssa.CallCommon) bool {
 func c08WritePoints(e *Env, s *Sched) {
 	r := e.R
 	r.Rule("C08.write-points", "MPT", "status written at start, on every notification and at the end", 3)
-	run := e.Fn("internal/agent", "(*Agent).Run")
+	a := e.agentRoles()
+	run := a.Run
 	if run == nil {
 		return
 	}
@@ -56,13 +57,20 @@ func c08WritePoints(e *Env, s *Sched) {
 		c, ok := in.(*ssa.Call)
 		return ok && isHistWrite(&c.Call)
 	}
-	// (a) after setupDatabase()==nil a Write precedes the socket setup / Schedule
+	// a helper of the agent that writes on all of its paths counts as a write
+	descend := func(g *ssa.Function) bool { return a.inPkg(g) }
+	// (a) after the history was opened successfully a Write precedes Schedule
 	var sched ssa.Instruction
 	for _, ci := range ir.CallsIn(run, func(c *ssa.CallCommon) bool { return c.StaticCallee() == s.Loop }) {
 		sched = ci
 	}
-	for _, ci := range ir.CallsIn(run, func(c *ssa.CallCommon) bool { return strings.HasSuffix(ir.CalleeName(c), ").setupDatabase") }) {
-		bad, _ := ir.Bypass(ci, nil, ir.PathQuery{Stop: isW,
+	nOpen := 0
+	for _, ci := range a.Sites(run, apiHistory+"Open") {
+		if ci.Parent() != run {
+			continue
+		}
+		nOpen++
+		bad, _ := ir.Bypass(ci, nil, ir.PathQuery{Stop: isW, Descend: descend,
 			SkipEdge: func(from *ssa.BasicBlock, idx int) bool {
 				i, ok := from.Instrs[len(from.Instrs)-1].(*ssa.If)
 				if !ok {
@@ -75,21 +83,71 @@ func c08WritePoints(e *Env, s *Sched) {
 		r.Check(bad == nil && sched != nil, "Agent.Run: a status is written between opening the history and scheduling", e.InstrPos(ci),
 			"the run can start executing without an initial status having been recorded (a crash right after start leaves an empty run file)")
 	}
+	if nOpen == 0 {
+		r.Unknown("Agent.Run: where the history is opened", e.Pos(run.Pos()), "no call of Run opens the history store")
+	}
 	// (b) after Schedule every path to a return passes a Write
 	if sched != nil {
-		bad, _ := ir.Bypass(sched, nil, ir.PathQuery{Stop: isW, Bad: ir.IsReturn})
+		bad, _ := ir.Bypass(sched, nil, ir.PathQuery{Stop: isW, Descend: descend, Bad: ir.IsReturn})
 		r.Check(bad == nil, "Agent.Run: the final status is written after Schedule on every path", e.InstrPos(sched),
 			"the run can return without recording its final status: history keeps saying running (reported failed) although it finished")
-		// the written status is computed after Schedule
-		for _, ci := range ir.CallsIn(run, func(c *ssa.CallCommon) bool { return isHistWrite(c) }) {
-			if !ir.Precedes(sched, ci) {
+		// the written status is computed after Schedule: the writes of Run after
+		// Schedule, and those of the helpers Run calls after Schedule
+		// (the status handed to a writing helper is followed to the helper's callers)
+		post := map[*ssa.Function]bool{}
+		for _, ci := range ir.CallsIn(run, func(c *ssa.CallCommon) bool { return a.inPkg(c.StaticCallee()) }) {
+			if _, isCall := ci.(*ssa.Call); !isCall || !ir.Precedes(sched, ci) {
+				continue
+			}
+			for g := range e.inlinedSet(ci.Common().StaticCallee(), nil) {
+				post[g] = true
+			}
+			post[ci.Common().StaticCallee()] = true
+		}
+		type wev struct {
+			v    ssa.Value
+			site ssa.Instruction
+		}
+		var evs []wev
+		var lift func(v ssa.Value, site ssa.Instruction, depth int)
+		lift = func(v ssa.Value, site ssa.Instruction, depth int) {
+			v = ir.Resolve(v)
+			if pm, isP := v.(*ssa.Parameter); isP && depth < 4 {
+				for k, q := range pm.Parent().Params {
+					if q != pm {
+						continue
+					}
+					for _, cs := range e.StaticCallSites(pm.Parent()) {
+						if k < len(cs.Common().Args) {
+							lift(cs.Common().Args[k], cs, depth+1)
+						}
+					}
+				}
+				return
+			}
+			evs = append(evs, wev{v, site})
+		}
+		for _, f := range e.RepoFuncsSorted() {
+			if !a.inPkg(f) {
+				continue
+			}
+			for _, w := range ir.CallsIn(f, func(c *ssa.CallCommon) bool { return isHistWrite(c) }) {
+				lift(w.Common().Args[0], w, 0)
+			}
+		}
+		for _, x := range evs {
+			f := x.site.Parent()
+			inRun := f == run && ir.Precedes(sched, x.site)
+			if !inRun && !(f != run && post[f]) {
 				continue
 			}
 			okFresh := false
-			if sc, isC := ir.Resolve(ci.Common().Args[0]).(*ssa.Call); isC && strings.HasSuffix(ir.CalleeName(&sc.Call), "Agent).Status") && ir.Precedes(sched, sc) {
-				okFresh = true
+			if sc, isC := x.v.(*ssa.Call); isC && strings.HasSuffix(ir.CalleeName(&sc.Call), "Agent).Status") {
+				if sc.Parent() == f && (!inRun || ir.Precedes(sched, sc)) {
+					okFresh = true
+				}
 			}
-			r.Check(okFresh, "Agent.Run: the final write records a.Status() taken after Schedule", e.InstrPos(ci), "the final write records a status computed before the run finished")
+			r.Check(okFresh, "Agent.Run: the final write records a.Status() taken after Schedule", e.InstrPos(x.site), "the final write records a status computed before the run finished")
 		}
 	} else {
 		r.Unknown("Agent.Run: Schedule call", e.Pos(run.Pos()), "not found")
@@ -140,7 +198,7 @@ func c08WritePoints(e *Env, s *Sched) {
 			if body == nil {
 				continue
 			}
-			bad, _ := ir.Bypass(nil, body, ir.PathQuery{Stop: isW, Descend: func(g *ssa.Function) bool { return e.P.Funcs[g] && ir.UniqueSite(g) != nil },
+			bad, _ := ir.Bypass(nil, body, ir.PathQuery{Stop: isW, Descend: descend,
 				Bad: func(in ssa.Instruction) bool { return in == l.Header.Instrs[0] }})
 			if bad == nil {
 				okC = true
@@ -189,8 +247,28 @@ func c08Latest(e *Env) {
 			}
 		}
 	}
+	// the history query: made by the function itself or by a helper it hands the answer of on
+	hasHistRead := func(f *ssa.Function) bool {
+		return len(ir.CallsIn(f, func(c *ssa.CallCommon) bool { return c.IsInvoke() && c.Method.Name() == "ReadStatusToday" })) > 0
+	}
+	reachesHist := func(c *ssa.CallCommon) bool {
+		if c.IsInvoke() {
+			return c.Method.Name() == "ReadStatusToday"
+		}
+		sc := c.StaticCallee()
+		return sc != nil && e.P.Funcs[sc] && e.ReachesRepo(sc, hasHistRead)
+	}
+	holder := fn
+	var viaCall *ssa.Call
+	if !hasHistRead(fn) {
+		for _, ci := range ir.CallsIn(fn, reachesHist) {
+			if c, ok := ci.(*ssa.Call); ok && c.Call.StaticCallee() != nil && hasHistRead(c.Call.StaticCallee()) {
+				holder, viaCall = c.Call.StaticCallee(), c
+			}
+		}
+	}
 	var persisted ssa.Value
-	for _, ci := range ir.CallsIn(fn, func(c *ssa.CallCommon) bool { return c.IsInvoke() && c.Method.Name() == "ReadStatusToday" }) {
+	for _, ci := range ir.CallsIn(holder, func(c *ssa.CallCommon) bool { return c.IsInvoke() && c.Method.Name() == "ReadStatusToday" }) {
 		if v, ok := ci.(ssa.Value); ok {
 			for _, ref := range *v.Referrers() {
 				if ex, isE := ref.(*ssa.Extract); isE && ex.Index == 0 {
@@ -218,11 +296,42 @@ func c08Latest(e *Env) {
 						okLive = true
 					}
 				}
+			}
+		}
+	}
+	// the helper's answer is what the query returns
+	if viaCall != nil {
+		handed := false
+		for _, b := range fn.Blocks {
+			if rt, ok := b.Instrs[len(b.Instrs)-1].(*ssa.Return); ok && len(rt.Results) > 0 {
+				for _, v := range RetVals(rt, 0) {
+					rv := ir.Resolve(v)
+					if ex, isE := rv.(*ssa.Extract); isE && ex.Index == 0 {
+						rv = ex.Tuple
+					}
+					if rv == ssa.Value(viaCall) {
+						handed = true
+					}
+				}
+			}
+		}
+		if !handed {
+			okPers = false
+		}
+	}
+	for _, b := range holder.Blocks {
+		for _, in := range b.Instrs {
+			rt, ok := in.(*ssa.Return)
+			if !ok || !e.Facts(holder).Reachable(b) {
+				continue
+			}
+			for _, v := range RetVals(rt, 0) {
+				v = ir.Resolve(v)
 				if v == persisted {
 					nPers++
 					// a CorrectRunningStatus(persisted) call precedes
 					corrected := false
-					for _, ci := range ir.CallsIn(fn, func(c *ssa.CallCommon) bool {
+					for _, ci := range ir.CallsIn(holder, func(c *ssa.CallCommon) bool {
 						return strings.HasSuffix(ir.CalleeName(c), "Status).CorrectRunningStatus")
 					}) {
 						if ir.Resolve(ci.Common().Args[0]) == persisted && ir.Precedes(ci, rt) {
@@ -238,7 +347,7 @@ func c08Latest(e *Env) {
 	}
 	// the history is consulted only when the socket did not answer
 	okOrder := false
-	for _, ci := range ir.CallsIn(fn, func(c *ssa.CallCommon) bool { return c.IsInvoke() && c.Method.Name() == "ReadStatusToday" }) {
+	for _, ci := range ir.CallsIn(fn, reachesHist) {
 		if HasNilCmp(e.DCS(ci), func(x ssa.Value) bool { return ir.Resolve(x) == live }, false) {
 			okOrder = true
 		}
